@@ -91,7 +91,7 @@ def sim_scenario(sc):
                 closer.append(("attempt", len(attempts), t - 0.5))
         attempts.append({"events": evs, "tls": bool(a.get("tls"))})
     return {"scheme": sc.get("scheme", "ws"), "callbacks": dict(sc["callbacks"]), "attempts": attempts, "args": args,
-            "closer_rel": closer, "runs": 1, "custom_dispatcher": bool(sc.get("custom_dispatcher")), "reconnect_via_setter": bool(sc.get("reconnect_via_setter")),
+            "closer_rel": closer, "runs": 1, "custom_dispatcher": bool(sc.get("custom_dispatcher")), "reconnect_via_setter": bool(sc.get("reconnect_via_setter")), "header_callable": bool(sc.get("header_callable")),
             "tie": sc.get("tie", [])}
 
 
